@@ -121,6 +121,15 @@ def check_C01(tier, seed, replay=None):
     div, tot = run.execute(groups, inputs, options, plan_for, flagsets, pack_size=100, noentry_oi=2)
     design_level(run, groups, inputs, options, lambda g: [1] if g.maydiverge else [0], 192 if tier == "quick" else 100000)
     t2_bind(run, 1500 if tier == "quick" else 20000)
+    # "for every generation-flag set": the same grammars through -optimize-grammar (values compared after normalisation)
+    run_o = Run("C01", tier, seed)
+    sub = [g for g in groups if g.gi > len(trees)][: 300 if tier == "quick" else 2000]
+    sub2 = F.random_groups(seed, len(sub), cfg, gi0=1)
+    d_o, tot_o = run_o.execute(sub2, inputs, options, lambda g: [(ii, 1 if g.maydiverge else 0) for ii in allin], [["-optimize-grammar"], ["-optimize-grammar", "-optimize-parser"]],
+                               cmp=dict(norm=True, errs=False), gen_flags_for=lambda pk: ["-alternate-entrypoints", ",".join(g.sname() for g in pk)])
+    for d in d_o:
+        run.violation(run_o.replay_path(d), "-optimize-grammar: df=%s gi=%d ii=%d" % (d["df"], d["gi"], d["ii"]))
+    tot = dict(n=tot["n"] + tot_o["n"], states=tot["states"] + tot_o["states"], transitions=tot["transitions"] + tot_o["transitions"])
     return std_finish(run, div, tot, "E(d) exhaustive single-rule grammars + random multi-rule grammars x all inputs up to the bound x flag sets; a group is distinct by construction (enumeration) and non-trivial when it has at least one operator")
 
 
@@ -155,13 +164,19 @@ def check_C02(tier, seed, replay=None):
     cfg2 = F.RandCfg(depth=4, maxrules=2, leaves=F.LEAVES_FULL, preds=True, labpool=["k", "v", "w"])
     groups += F.random_groups(seed + 11, nrand // 2, cfg2, gi0=len(groups) + 1)
     inputs = F.all_inputs(alpha, maxlen)
-    options = [opt(), opt(memo=True), opt(maxexpr=3000), opt(maxexpr=3000, memo=True)]
+    options = [opt(), opt(memo=True), opt(maxexpr=3000), opt(maxexpr=3000, memo=True), opt(debug=True)]
     nin = len(inputs)
     run.add_witnesses([f["id"] for f in findings.active("C02")], groups, inputs, options)
+    run.keep_debug = True
 
     def plan_for(g):
-        return [(ii, oi) for ii in range(nin) for oi in ((2,) if g.maydiverge else (0, 1))]
+        pl = [(ii, oi) for ii in range(nin) for oi in ((2,) if g.maydiverge else (0, 1))]
+        if not g.maydiverge and g.gi % 3 == 1:
+            pl += [(ii, 4) for ii in range(0, nin, 2)]       # Debug(true): every printed position is checked against M (T2, PosIsPure)
+        return pl
     div, tot = run.execute(groups, inputs, options, plan_for, flagsets, lower=[[201, 233]], cmp=dict(ctx=True))
+    design_level(run, groups, inputs, options, lambda g: [0], 250 if tier == "quick" else 3000, inputs_idx=range(nin))
+    t2_bind(run, 2000 if tier == "quick" else 20000)
     return std_finish(run, div, tot, "block placements over E(1) with multi-byte and newline terminals + random multi-rule grammars with actions, predicates, state blocks and labels x all inputs over {a,\\n,e-acute,euro} up to the bound x {default, Memoize}; every code-block event is compared")
 
 
@@ -194,8 +209,13 @@ def check_C05(tier, seed, replay=None):
         trees = F.exhaustive(1, F.LEAVES_SMALL + F.STATE_LEAVES)
         nrand, maxlen, flagsets = 500, 3, [[], ["-optimize-parser"], ["-optimize-parser", "-optimize-basic-latin", "-nolint"]]
     else:
-        trees = F.exhaustive(2, [("lit", (F.A,), False), ("lit", (), False), ("state", "inc", "x", 1), ("state", "app", "cl", 2), ("pred", False, "eq", "x", 1)])
+        trees = F.exhaustive(2, [("lit", (F.A,), False), ("lit", (), False), ("state", "inc", "x", 1), ("state", "app", "cl", 2), ("pred", False, "eq", "x", 1), ("state", "del", "x", 0)])
         nrand, maxlen, flagsets = 3000, 3, FLAGSETS_8
+    mv = ("seq", ("state", "del", "x", 0), ("state", "set", "y", 2), ("lit", (F.B,), False))       # moves an entry, then fails
+    for wrap in ("opt", "star", "plus"):
+        for pre in (("state", "set", "x", 1), ("state", "inc", "x", 2)):
+            trees.append(("seq", pre, (wrap, mv), ("pred", False, "eq", "y", 0), ("lit", (F.A,), False)))
+            trees.append(("seq", pre, ("choice", mv, ("lit", (), False)), ("lit", (F.A,), False)))
     groups = F.groups_from_trees(trees)
     cfg = F.RandCfg(depth=4, maxrules=3, state=True, cloner=True, gstore=True, preds=True)
     groups += F.random_groups(seed, nrand, cfg, gi0=len(groups) + 1)
@@ -234,6 +254,8 @@ def double_reach_groups(rng, n, gi0):
         body = g.action(g.seq([g.un("star", g.lit([F.A])), g.label(g.cls((F.A, F.B), (), False, False)),
                                g.un("opt", g.label(g.lit([F.B])))]))
         alts = []
+        if rng.random() < 0.4:
+            alts.append(g.seq([g.un(rng.choice(["and", "not"]), g.ref(2)), g.label(g.ref(2)), g.un("opt", g.lit([F.B]))]))
         for _ in range(rng.randint(2, 3)):
             pre = [g.lit([F.A])] * rng.randint(0, 2)
             suf = [rng.choice([g.lit([F.B]), g.lit([F.UA], True), g.any(), g.un("not", g.any())])]
@@ -289,7 +311,8 @@ def check_C06(tier, seed, replay=None):
                 continue
             npairs += 1
             for fld in ("status", "ok", "end", "val", "errs", "nomatch"):
-                if o[fld] != base[fld]:
+                a_, b_ = (o[fld]["is"], base[fld]["is"]) if fld == "nomatch" else (o[fld], base[fld])
+                if a_ != b_:
                     div.append(dict(k=o["k"], vi=o["vi"], gi=gi, ii=ii, oi=oi, df="pair-" + fld, at=0, haz=["memolabel"] if any(
                         d2["gi"] == gi and d2["ii"] == ii and "memolabel" in d2.get("haz", []) for d2 in div) else []))
                     break
@@ -399,7 +422,19 @@ def check_C12(tier, seed, replay=None):
     R = F.RUNES
     inputs = F.all_inputs([R["a"], R["b"], R["nl"], R["eacute"]], maxlen)
     options = [opt(), opt(maxexpr=3000)]
-    div, tot = run.execute(groups, inputs, options, budget_plan(len(inputs)), FLAGSETS_2 + [["-optimize-basic-latin"]], lower=[[201, 233]])
+    nin12 = len(inputs)
+    lr12 = []
+    sd = seed * 31
+    while len(lr12) < (60 if tier == "quick" else 400):       # left-recursive towers without error-returning blocks
+        sd += 1
+        g = F.lr_group(random.Random(sd), len(groups) + len(lr12) + 1, pure=True)
+        if not any(nn["err"] for nn in g.nodes):
+            lr12.append(g)
+    groups += lr12
+    first = len(inputs)
+    inputs += F.all_inputs([F.NN, F.PLUS, F.STAR_, F.LP], 4) + [[F.NN, F.PLUS, F.NN, F.PLUS], [F.NN, F.PLUS, F.NN, F.STAR_, F.NN, F.PLUS], [F.NN, F.PLUS, F.NL], [F.NN, F.NN, F.PLUS, F.NN, F.PLUS]]
+    lrin = list(range(first, len(inputs)))
+    div, tot = run.execute(groups, inputs, options, budget_plan(nin12, lr_inputs=lrin), FLAGSETS_2 + [["-optimize-basic-latin"]], lower=[[201, 233]])
     nm = 0
     from rt import load_obs
     for p in run.obs:
@@ -504,11 +539,22 @@ def check_C16(tier, seed, replay=None):
         options.append(opt(maxexpr=nb, rev=True, stats=False, allowinv=True))
         options.append(opt(maxexpr=nb, stats=False, debug=True))
     nopt = len(options)
+    # a long input of ill-formed bytes: more than a hundred errors are recorded before the budget is exhausted
+    long_first = len(inputs)
+    inputs += [[0xFF] * 150, [0x80, F.A] * 90, [F.A] * 200]
+    long_opts = []
+    for nb in (120, 330, 5000):
+        for memo in (False, True):
+            options.append(opt(maxexpr=nb, memo=memo))
+            long_opts.append(len(options) - 1)
     run.add_witnesses([f["id"] for f in findings.active("C16")], groups, inputs, options)
 
     def plan_for(g):
         ois = [i for i in range(nopt) if not (g.maydiverge and options[i]["memo"])]   # F3: not run in bulk
-        return [(ii, oi) for ii in range(nin) for oi in ois]
+        pl = [(ii, oi) for ii in range(nin) for oi in ois]
+        if g.gi % 4 == 0:
+            pl += [(ii, oi) for ii in range(long_first, long_first + 3) for oi in long_opts if not (g.maydiverge and options[oi]["memo"])]
+        return pl
     div, tot = run.execute(groups, inputs, options, plan_for, [[], ["-optimize-parser"]], timeout_ms=4000)
     # design level: M under budgets, with Termination as a liveness property (weak fairness, lists abstracted to 2 elements).
     # (i) as the property demands (a memo hit is charged): every run terminates;
@@ -566,12 +612,13 @@ def check_C08(tier, seed, replay=None):
     for _ in range(200 if tier == "quick" else 600):
         inputs.append([rng.choice([F.NN, F.NN, F.PLUS, F.MINUS, F.STAR_, 94, F.LP, F.RP, 120]) for _ in range(rng.randint(maxlen + 1, maxlen + 4))])
     inputs += [[F.NN, op, F.NN, 120] for op in (F.PLUS, F.MINUS, F.STAR_)] + [[F.NN, F.PLUS, F.NN, F.PLUS, F.NN, 120], [F.NN, F.PLUS, F.NN, F.STAR_, F.NN, 120]]
-    options = [opt(), opt(memo=True), opt(debug=True), opt(debug=True, memo=True)]
+    options = [opt(), opt(memo=True), opt(debug=True), opt(debug=True, memo=True), opt(entry="@1", entryrule=1), opt(entry="@1", entryrule=1, memo=True)]
     nin = len(inputs)
     run.keep_debug = True
     import findings
     run.add_witnesses([f["id"] for f in findings.active("C08")], groups, inputs, options)
-    div, tot = run.execute(groups, inputs, options, lambda g: [(ii, oi) for ii in range(nin) for oi in (0, 1)] + ([(ii, 2 + (ii % 2)) for ii in range(0, nin, 9)] if g.gi % 3 == 0 else []),
+    div, tot = run.execute(groups, inputs, options, lambda g: [(ii, oi) for ii in range(nin) for oi in (0, 1)] + ([(ii, 2 + (ii % 2)) for ii in range(0, nin, 9)] if g.gi % 3 == 0 else []) +
+                           ([(ii, 4 + (ii % 2)) for ii in range(0, nin, 2)] if g.lr and g.lr[0] > 0 and not any(n_["err"] for n_ in g.nodes) else []),      # Entrypoint = the left-recursive rule itself (success is observable only without error-returning blocks)
                            [["-support-left-recursion"], ["-support-left-recursion", "-optimize-parser"]], timeout_ms=8000)
     from rt import pairwise
     d2, npairs = pairwise(run, [(i, i + 1) for i in range(0, len(run.variants), 2)], fields=("status", "ok", "end", "val", "errs", "store"))
@@ -841,7 +888,7 @@ def check_C19(tier, seed, replay=None):
     # repeated builds inside one process (hook)
     pv = P.build_pigeon("verif")
     reqs = []
-    for i, g in enumerate(chosen):
+    for i, g in enumerate(chosen + optg[:40]):
         reqs.append(json.dumps(dict(id=g.gi, text=list(texts[g.gi].encode()), times=K, lr=True, optimize=(i % 2 == 0), entry=[g.sname()])))
     p = subprocess.run([pv], input=("\n".join(reqs) + "\n").encode(), stdout=subprocess.PIPE, stderr=subprocess.PIPE, env=dict(P.ENV, PIGEON_VERIF="rebuild"), timeout=1800)
     if p.returncode != 0:
@@ -1005,6 +1052,12 @@ def c04_groups(seed, tier):
     for i in range(25 if tier == "quick" else 150):
         g = F.random_group(rng, len(groups) + 1, cfg)
         groups.append(g)
+    cfg3 = F.RandCfg(depth=4, maxrules=2, preds=True, labpool=["k", "v", "w"])       # the same label name in nested scopes
+    for i in range(15 if tier == "quick" else 80):
+        groups.append(F.random_group(rng, len(groups) + 1, cfg3))
+    sh = [("lit", (F.A,), False), ("any",)]
+    for t in [("shadow", a, b, c) for a in sh for b in sh for c in sh] + [("shadow", a, b, ("lit", (), False), ("pred", False, "true")) for a in sh for b in sh]:
+        groups += F.groups_from_trees([t], gi0=len(groups) + 1)
     cfg2 = F.RandCfg(depth=4, maxrules=3, preds=True, throw=True)
     nostate = []
     for i in range(15 if tier == "quick" else 60):
@@ -1639,6 +1692,10 @@ def check_C09(tier, seed, replay=None):
 
     def gen_flags(pk):
         names = [g.sname() for g in pk] + [g.rname(k) for g in pk for k in protected[g.gi]]
+        if pk[0].gi % 2 == 0:          # the flag may be repeated: every occurrence adds rules
+            third = max(1, len(names) // 3)
+            return ["-alternate-entrypoints", ",".join(names[:third]), "-alternate-entrypoints", ",".join(names[third:2 * third]) or names[0],
+                    "-alternate-entrypoints", ",".join(names[2 * third:]) or names[0]]
         return ["-alternate-entrypoints", ",".join(names)]
     run.bisect_build_failures = True      # an optimised grammar whose generated code does not compile is a violation, not a machinery failure
     div, tot = run.execute(groups, inputs, options, plan_for, [["-optimize-grammar"], ["-optimize-grammar", "-optimize-parser"], []],
@@ -1687,13 +1744,16 @@ def check_C18(tier, seed, replay=None):
     groups += lrg
     inputs = F.all_inputs([F.A, F.B], 3) + F.all_inputs([F.NN, F.PLUS, F.STAR_], 3)
     options = [opt(), opt(memo=True), opt(maxexpr=40), opt(allowinv=True, stats=False), opt(memo=True, maxexpr=3000)]
+    # calls with very few options (the per-parse log, optionally Memoize): only possible for the default entry rule
+    few = [len(options), len(options) + 1, len(options) + 2]
+    options += [opt(entry="-", stats=False), opt(entry="-", stats=False, memo=True), opt(entry="-", stats=False, allowinv=True)]
     nin = len(inputs)
     rng = random.Random(seed)
 
     def plan_for(g):
         pl = []
         for ii in range(nin):
-            for oi in range(len(options)):
+            for oi in range(len(options) - 3):
                 if g.maydiverge and options[oi]["maxexpr"] == 0:
                     continue
                 if g.maydiverge and options[oi]["memo"]:
@@ -1719,7 +1779,15 @@ def check_C18(tier, seed, replay=None):
         plan = []
         for gx, g in enumerate(v.groups):
             for (ii, oi) in plan_for(g):
+                if oi in few:
+                    continue
                 plan.append([gx, ii, oi])
+        g0 = v.groups[0]
+        if not g0.maydiverge:
+            rr = random.Random(seed + v.vi)
+            ins0 = sorted({ii for (ii, oi) in plan_for(g0)}) or [0]
+            extra = [[0, rr.choice(ins0), rr.choice(few)] for _ in range(600)]
+            plan = extra[:300] + plan + extra[300:]
         solo = v.run(inputs, options, plan, timeout_ms=20000)
         solo_err = getattr(v, "last_stderr", "")
         conc = v.run(inputs, options, plan, timeout_ms=20000, conc=G, rounds=rounds, obs_name="obs_conc.ndjson")
